@@ -143,7 +143,7 @@ func checkEngine(c engCase, memo *rsaMemo) *pending {
 	now := time.Now().Unix() // tolerance one hour: the verdict does not depend on the second
 	base := csBase{Method: "POST", Target: fmt.Sprintf("/g%d/data?x=1", c.Target), Gen: "p0:5", Type: c.Type, TolMs: 3600_000}
 	w := buildCS(csCase{Base: base, Mut: engMut(c.Kind)}, now)
-	exp := csOracle(w, now, base.TolMs, memo) // validity under the key the fingerprint names
+	exp := csOracle(w, now, base.tolNs(), memo) // validity under the key the fingerprint names
 	req, err := newServerRequest(w.Method, w.Target, w.Body, false)
 	if err != nil {
 		return &pending{Class: "harness-bad-case", Desc: err.Error()}
@@ -232,6 +232,9 @@ func engineJobs() []job {
 			for _, kind := range engReqKinds {
 				for _, typ := range []string{"0", "1"} {
 					for t := range srv {
+						if o.expired() {
+							return
+						}
 						c := engCase{Groups: srv, Target: t, Kind: kind, Type: typ}
 						p := checkEngine(c, memo)
 						o.evals++
